@@ -170,19 +170,17 @@ theorem map_pop_eq_reverse (m : OMap r) (c : Ctx) : (m.popIterate c).1 = m.toLis
   IterM.popIterate_fst m.d m.root c
 
 /-- Overwriting the value of the current key from inside the callback of the mutable iterator
-    neither skips nor repeats and keeps the key sequence.  PARTIAL: relative to the hypothesis
-    `IterM.OverwriteInPlace` — `Set` of an existing key replaces the value of that pair where it
-    stands and preserves `MapInv` (its elements-level form is `SetEffect` in AtreeProofs/Map; the
-    lift through slab splits/merges belongs to C02 and is not proved at the time of writing).
-    The implementation is checked against the model for this behaviour by the `iter` stream
-    (`IT map … kind=mutset`). -/
-theorem map_mut_iter_overwrite_current_partial (T : Nat) (hT : legalThreshold T = true) (D : DigestFn (r + 1))
-    (cfg : MCfg) (hset : IterM.OverwriteInPlace T D cfg)
+    neither skips nor repeats: the iteration hands out exactly the original pair list (the iterator
+    has fetched the next key before the callback runs and looks every key up in the CURRENT tree,
+    whatever splits and merges the overwrites cause), the invariant is preserved and the key
+    sequence is unchanged.  (Uses `OMap.set_overwrite`, the in-place effect of `Set` on a present key.) -/
+theorem map_mut_iter_overwrite_current_no_skip_no_repeat (T : Nat) (hT : legalThreshold T = true)
+    (D : DigestFn (r + 1)) (cfg : MCfg)
     (upd : MKey → Elem → Option Elem) (hupd : ∀ k v v', upd k v = some v' → ValueOkM v')
     (m : OMap r) (c : Ctx) (h : MapInv T D m) (hcfg : CfgOk cfg T m) :
     ∃ m' c', m.iterateWith cfg upd c = .ok (m.toList, m', c') ∧ MapInv T D m' ∧
       m'.toList.map (·.1) = m.toList.map (·.1) :=
-  IterM.iterateWith_spec hT hset upd hupd m c h hcfg
+  IterM.iterateWith_full hT upd hupd m c h hcfg
 
 /-! ## Non-vacuity
 
